@@ -263,6 +263,17 @@ func c09Inject(t *rapid.T) (c09Input, bool) {
 		inj.Grammar, inj.Late = true, ci > 0 || pi > 0
 		inj.Site = fmt.Sprintf("parameter %s of condition %s", cd.Params[pi].Name, cd.Name)
 	}
+	// module files as well as model files: the listener checks must not depend on the header or on "extend"
+	if in.Module == "" && in.Header == "" && kind != "extend-in-model" && rapid.IntRange(0, 2).Draw(t, "asModule") == 0 {
+		in.Module = gen.Ident(t, gen.IdentKeywordOK, true, "module")
+		in.Extend = map[int]bool{}
+		for ti, td := range m.Types {
+			if len(td.Rels) > 0 && rapid.Bool().Draw(t, "extendIt") {
+				in.Extend[ti] = true
+			}
+		}
+		inj.Site += " (module file" + map[bool]string{true: ", inside extend type", false: ""}[len(in.Extend) > 0] + ")"
+	}
 	in.Inj = inj
 	ch := &rapidChooser{t: t}
 	gen.Render(m, ch, gen.RenderOpts{Module: in.Module, Extend: in.Extend, Header: in.Header})
